@@ -551,12 +551,22 @@ static yyscan_t vf_scanner;
 #define VF_S0 vf_scanner
 #define VF_S1 , vf_scanner
 static int vf_init_failed;          /* yylex_init returned non-zero (with errno) */
+#ifdef YY_EXTRA_TYPE
+#define VF_EXTRA_T YY_EXTRA_TYPE
+#else
+#define VF_EXTRA_T void *
+#endif
 static void vf_fresh(void)
 {
 	if (vf_scanner) { yylex_destroy(vf_scanner); vf_scanner = 0; }
 	vf_init_failed = 0;
 	errno = 0;
+#ifdef VF_INIT_EXTRA
+	/* the other documented way to make a scanner: same failure contract (non-zero, errno), and the value must arrive in yyextra */
+	if (yylex_init_extra((VF_EXTRA_T)&vf_init_failed, &vf_scanner) != 0) {
+#else
 	if (yylex_init(&vf_scanner) != 0) {
+#endif
 #ifdef VF_FAULTS
 		vf_init_failed = errno ? errno : -1;
 		vf_scanner = 0;
@@ -564,6 +574,9 @@ static void vf_fresh(void)
 #endif
 		vf_hard_error("yylex_init failed");
 	}
+#ifdef VF_INIT_EXTRA
+	if (yyget_extra(vf_scanner) != (VF_EXTRA_T)&vf_init_failed) vf_hard_error("yylex_init_extra did not store the user value in yyextra");
+#endif
 }
 static void vf_finish(void) { if (vf_scanner) { yylex_destroy(vf_scanner); vf_scanner = 0; } }
 #elif defined(VF_API_CXX)
@@ -706,7 +719,10 @@ static void vf_run_one(void)
 #endif
 #endif
 #ifdef VF_BEGIN_OUTSIDE
-		vf_begin_outside(vf_g->sc);
+		/* VF_BEGIN_OUTSIDE=2: no yybegin() at all before the first yylex() - the scanner is still in its never-started state when
+		 * the API is used (only for rule sets that live in INITIAL) */
+		if (VF_BEGIN_OUTSIDE != 2) vf_begin_outside(vf_g->sc);
+		else if (vf_g->sc != 0) vf_hard_error("VF_BEGIN_OUTSIDE=2 is for groups that start in INITIAL");
 #endif
 #ifdef VF_PRELOADS
 		vf_do_preload();
